@@ -91,6 +91,8 @@ pub struct St {
     pub in_log: Vec<u8>,
     pub read_max: usize,
     pub read_calls: u64,
+    /// See `clear_ready`.
+    pub edges_only: bool,
     /// Return a spurious would-block after every successful read.
     pub wb_after_each_read: bool,
     rd_wb_next: bool,
@@ -169,6 +171,7 @@ pub fn new_mock(reflex: Reflex) -> (Mock, Handle) {
         in_log: Vec::new(),
         read_max: usize::MAX,
         read_calls: 0,
+        edges_only: false,
         wb_after_each_read: false,
         rd_wb_next: false,
         last_read_data_at: None,
@@ -247,6 +250,12 @@ impl Shared {
 
     fn clear_ready(&self, st: &mut St, which: Ready) {
         st.readiness = st.readiness - which;
+        // (publishing a readiness that is not empty queues an event for it: with
+        // `edges_only` a would-block on one side does not announce the other side anew,
+        // as a socket's edge-triggered registration would not)
+        if st.edges_only && !st.readiness.is_empty() {
+            return;
+        }
         let _ = self.setr.set_readiness(st.readiness);
     }
 
